@@ -53,9 +53,6 @@ def verdict (spec : Option String) (model impl : String) : String :=
 def expect (want impl : String) : Option String :=
   if want == impl then none else some s!"expected [{want}], implementation answered [{impl}]"
 
-def expectAny (wants : List String) (impl : String) : Option String :=
-  if wants.contains impl then none else some s!"expected one of {wants}, implementation answered [{impl}]"
-
 def joinOr (sep : String) (l : List String) (empty : String := "-") : String :=
   if l.isEmpty then empty else String.intercalate sep l
 
